@@ -30,6 +30,8 @@ m = {
     "engines": [
         {"name": "tla-contract", "path": "/verif/spec", "serves_properties": [c["property_id"] for c in checks if c["engine"] == "tla-contract"],
          "kind_free_text": "AnyVec.tla contract + MC_AnyVec.tla bounded exploration (TLC) + TraceAnyVec.tla trace validation (TLC) + Rust replay harness"},
+        {"name": "tla-rules", "path": "/verif/spec", "serves_properties": [c["property_id"] for c in checks if c["engine"] == "tla-rules"],
+         "kind_free_text": "AnyVecTraits.tla / AnyVecBorrow.tla rule models enumerated by TLC; cases rendered to Rust probes and decided by rustc (tools/probes.py)"},
     ],
     "checks": checks,
     "notes": "See DESIGN.md. ./check <id> quick|thorough ; ./check replay <file>. known_findings.json lists recorded findings and fixed: entries.",
